@@ -25,6 +25,7 @@ import (
 
 	"github.com/matrix-org/gomatrixserverlib/spec"
 	"github.com/matrix-org/util"
+	"github.com/tidwall/gjson"
 )
 
 // StateNeeded lists the event types and state_keys needed to authenticate an event.
@@ -581,6 +582,13 @@ func (a *allowerContext) powerLevelsEventAllowed(event PDU) error {
 	newPowerLevels, err := NewPowerLevelContentFromEvent(event)
 	if err != nil {
 		return err
+	}
+	// "If the users property in content is not an object ..., reject." The
+	// parser of the older room versions reads "users": null like an absent
+	// member (and has to, for events already stored); a new event is held to
+	// the rule here.
+	if users := gjson.GetBytes(event.Content(), "users"); users.Exists() && users.Type == gjson.Null {
+		return errorf("power levels users is null")
 	}
 
 	// Check that the user levels are all valid user IDs
